@@ -65,6 +65,8 @@ where
                 let buf = queue.assemble();
                 // tracing::trace!("reassembled {} bytes", buf.len());
                 entry.remove_entry();
+                // the group is gone: its timeout must not hit a later group that reuses the id
+                self.timer.retain(|x| x.0 != id);
                 T::from_buffer(buf.freeze())
             } else {
                 None
